@@ -141,18 +141,30 @@ func runStale(c staleCase) ev.Outcome {
 				break
 			}
 			fq := s2.NewContainsPointQuery(fidx, vertexModels[m])
-			note("ContainsPointQuery.Contains", cpq[m].Contains(p), fq.Contains(p))
-			note("ContainsPointQuery.ContainingShapes", positions(cpq[m].ContainingShapes(p), hs), positions(fq.ContainingShapes(p), fs))
 			k := len(hs) - 1
-			note("ContainsPointQuery.ShapeContains", cpq[m].ShapeContains(hs[k], p), fq.ShapeContains(fs[k], p))
+			// Which method is asked first matters: any one of them may be the one
+			// that notices the pending update. The vertex models take turns.
+			for j := 0; j < 3; j++ {
+				switch (j + m) % 3 {
+				case 0:
+					note("ContainsPointQuery.Contains", cpq[m].Contains(p), fq.Contains(p))
+				case 1:
+					note("ContainsPointQuery.ContainingShapes", positions(cpq[m].ContainingShapes(p), hs), positions(fq.ContainingShapes(p), fs))
+				case 2:
+					note("ContainsPointQuery.ShapeContains", cpq[m].ShapeContains(hs[k], p), fq.ShapeContains(fs[k], p))
+				}
+			}
 			if fq.Contains(p) != s2.NewContainsPointQuery(bidx, vertexModels[m]).Contains(p) {
 				changed = true
 			}
 		}
 		if c.Which == "ceq" {
 			fce := s2.NewCrossingEdgeQuery(fidx)
-			note("CrossingEdgeQuery.CrossingsEdgeMap", edgeMapByPos(ceq.CrossingsEdgeMap(p, q, s2.CrossingTypeAll), hs), edgeMapByPos(fce.CrossingsEdgeMap(p, q, s2.CrossingTypeAll), fs))
 			k := len(hs) - 1
+			if c.BuildAfterAdd == c.UseBefore { // either method first
+				note("CrossingEdgeQuery.Crossings", append([]int{}, ceq.Crossings(p, q, hs[k], s2.CrossingTypeAll)...), append([]int{}, fce.Crossings(p, q, fs[k], s2.CrossingTypeAll)...))
+			}
+			note("CrossingEdgeQuery.CrossingsEdgeMap", edgeMapByPos(ceq.CrossingsEdgeMap(p, q, s2.CrossingTypeAll), hs), edgeMapByPos(fce.CrossingsEdgeMap(p, q, s2.CrossingTypeAll), fs))
 			note("CrossingEdgeQuery.Crossings", append([]int{}, ceq.Crossings(p, q, hs[k], s2.CrossingTypeAll)...), append([]int{}, fce.Crossings(p, q, fs[k], s2.CrossingTypeAll)...))
 			if len(fce.CrossingsEdgeMap(p, q, s2.CrossingTypeAll)) != len(s2.NewCrossingEdgeQuery(bidx).CrossingsEdgeMap(p, q, s2.CrossingTypeAll)) {
 				changed = true
